@@ -98,6 +98,32 @@ fn vec_col() -> ColSpec {
     col("ks1", "vecs", "vec", CType::Raw(0x0000, class.buf))
 }
 
+/// One column of type vector<text, 3>: elements of variable length, each preceded by its
+/// length as an unsigned vint; empty strings in every position.
+const VTEXT_Q: &str = "SELECT tv FROM ks1.vecs WHERE x = ";
+const VTEXT_CLASS: &str = "org.apache.cassandra.db.marshal.VectorType(org.apache.cassandra.db.marshal.UTF8Type , 3)";
+const VTEXT_ROWS: [[&str; 3]; 4] = [["a", "bc", "def"], ["", "x", "yz"], ["p", "", "q"], ["r", "st", ""]];
+
+fn vtext_col() -> ColSpec {
+    let mut class = W::new();
+    class.string(VTEXT_CLASS);
+    col("ks1", "vecs", "tv", CType::Raw(0x0000, class.buf))
+}
+
+fn vtext_rows() -> Vec<Vec<Cell>> {
+    VTEXT_ROWS
+        .iter()
+        .map(|r| {
+            let mut b = Vec::new();
+            for e in r {
+                b.push(e.len() as u8); // unsigned vint of a length below 128: one byte
+                b.extend_from_slice(e.as_bytes());
+            }
+            vec![Cell::Blob(b)]
+        })
+        .collect()
+}
+
 fn vec_rows() -> Vec<Vec<Cell>> {
     (0..4)
         .map(|r| {
@@ -481,6 +507,9 @@ impl Script for C08Script {
             let r = crate::cluster::default_rows(stmt, rq.marker);
             return vec![r[0].clone(), r[0].clone()];
         }
+        if stmt.shape == VTEXT_Q {
+            return vtext_rows();
+        }
         if stmt.shape == VEC_Q {
             let mut rows = vec_rows();
             if let Some(len) = self.vec_cell_len {
@@ -811,6 +840,18 @@ pub fn run(req: &RunRequest) -> Value {
             bind_cols: vec![],
             pk_indexes: vec![],
             result_cols: vec![vec_col()],
+            marker_bind: None,
+            schema_version: 0,
+            id_version: 0,
+        });
+        cluster.catalog.push(StmtDef {
+            shape: VTEXT_Q.into(),
+            ks: "ks1".into(),
+            table: "vecs".into(),
+            kind: StmtKind::Select,
+            bind_cols: vec![],
+            pk_indexes: vec![],
+            result_cols: vec![vtext_col()],
             marker_bind: None,
             schema_version: 0,
             id_version: 0,
@@ -1323,6 +1364,28 @@ async fn main(plan: Plan) -> Outcome {
             match decoded {
                 Ok(v) if v == want => out.count("vector_nth_equal", 1),
                 other => out.violation("c08.roundtrip", format!("vector column through nth(): got {other:?}, expected {want:?}")),
+            }
+        }
+    }
+    // S4d: a vector<text, 3> column (variable-length elements) read as Vec<String>.
+    if let Some(r) = step(&mut out, "vector_of_text", session.query_unpaged(format!("{VTEXT_Q}1"), ())).await {
+        let decoded: Result<Vec<Result<Vec<String>, String>>, String> = (|| {
+            let qr = r.map_err(|e| e.to_string())?;
+            let rr = qr.into_rows_result().map_err(|e| e.to_string())?;
+            let mut v = Vec::new();
+            for row in rr.rows::<(Vec<String>,)>().map_err(|e| e.to_string())? {
+                v.push(row.map(|(x,)| x).map_err(|e| e.to_string().chars().take(160).collect::<String>()));
+                if v.len() > ROW_CAP {
+                    break;
+                }
+            }
+            Ok(v)
+        })();
+        if clean {
+            let want: Vec<Result<Vec<String>, String>> = VTEXT_ROWS.iter().map(|r| Ok(r.iter().map(|e| e.to_string()).collect())).collect();
+            match decoded {
+                Ok(v) if v == want => out.count("vector_of_text_equal", 1),
+                other => out.violation("c08.roundtrip", format!("vector<text, 3> column: got {other:?}, expected {want:?}")),
             }
         }
     }
